@@ -79,6 +79,23 @@ impl PS {
     fn at(&self, i: usize) -> usize { match &self.map { Some(v) => v[i], None => i } }
     fn images(&self) -> Vec<usize> { (0..self.dim).map(|i| self.at(i)).collect() }
 }
+/// all ownership forms of a binary operator (val∘val, val∘ref, ref∘val, ref∘ref, assign by ref, assign by value), cycled by a
+/// global counter so that every form is exercised in every run ("every operation … in every by-value/by-reference form")
+static FORM: std::sync::atomic::AtomicUsize = std::sync::atomic::AtomicUsize::new(0);
+macro_rules! forms6 {
+    ($a:expr, $b:expr, $op:tt, $opa:tt) => {{
+        let (a, b) = ($a, $b);
+        match FORM.fetch_add(1, std::sync::atomic::Ordering::Relaxed) % 6 {
+            0 => a $op b,
+            1 => a $op &b,
+            2 => &a $op b,
+            3 => &a $op &b,
+            4 => { let mut x = a; x $opa &b; x }
+            _ => { let mut x = a; x $opa b; x }
+        }
+    }};
+}
+
 fn owned_perm(ps: &PS) -> sprs::PermOwned {
     match &ps.map { Some(v) => sprs::PermOwned::new(v.clone()), None => sprs::PermOwned::identity(ps.dim) }
 }
@@ -149,8 +166,8 @@ fn istep<R: Sc>(op: &str, c: &mut Cur, st: &mut Vec<IV<R>>) where for<'x> &'x R:
         "PF" => { let (m, n, k) = (c.nat(), c.nat(), c.nat()); let ps: Vec<(usize, usize)> = (0..k).map(|_| (c.nat(), c.nat())).collect();
             let (p, q) = perms_by_pivots(&SpMat::<R>::zero((m, n)), &ps);
             st.push(IV::P(perm_of_owned_images(p.dim(), |i| p.at(i)))); st.push(IV::P(perm_of_owned_images(q.dim(), |i| q.at(i)))); }
-        "add" => { let b = pop!(st, S); let a = pop!(st, S); st.push(IV::S(&a + &b)); }
-        "sub" => { let b = pop!(st, S); let a = pop!(st, S); st.push(IV::S(&a - &b)); }
+        "add" => { let b = pop!(st, S); let a = pop!(st, S); st.push(IV::S(forms6!(a, b, +, +=))); }
+        "sub" => { let b = pop!(st, S); let a = pop!(st, S); st.push(IV::S(forms6!(a, b, -, -=))); }
         "mul" => { let b = pop!(st, S); let a = pop!(st, S); st.push(IV::S(&a * &b)); }
         "neg" => { let a = pop!(st, S); st.push(IV::S(-&a)); }
         "tr" => { let a = pop!(st, S); st.push(IV::S(a.transpose())); }
@@ -175,8 +192,8 @@ fn istep<R: Sc>(op: &str, c: &mut Cur, st: &mut Vec<IV<R>>) where for<'x> &'x R:
         "dense" => { let a = pop!(st, S); st.push(IV::D(a.into_dense())); }
         "sparse" => { let a = pop!(st, D); st.push(IV::S(a.into_sparse())); }
         "isz" => { let a = pop!(st, S); st.push(IV::B(a.is_zero())); }
-        "vadd" => { let b = pop!(st, V); let a = pop!(st, V); st.push(IV::V(&a + &b)); }
-        "vsub" => { let b = pop!(st, V); let a = pop!(st, V); st.push(IV::V(&a - &b)); }
+        "vadd" => { let b = pop!(st, V); let a = pop!(st, V); st.push(IV::V(forms6!(a, b, +, +=))); }
+        "vsub" => { let b = pop!(st, V); let a = pop!(st, V); st.push(IV::V(forms6!(a, b, -, -=))); }
         "vneg" => { let a = pop!(st, V); st.push(IV::V(-&a)); }
         "vperm" => { let p = pop!(st, P); let a = pop!(st, V); let po = owned_perm(&p); st.push(IV::V(a.permute(po.view()))); }
         "vsv" => { let x = c.nats(2); let a = pop!(st, V); st.push(IV::V(a.subvec(x[0]..x[1]))); }
@@ -189,8 +206,8 @@ fn istep<R: Sc>(op: &str, c: &mut Cur, st: &mut Vec<IV<R>>) where for<'x> &'x R:
         "vx2" => { let a = pop!(st, V); let d = a.dim(); st.push(IV::V(a.extract((d + 1) / 2, |i| (i % 2 == 0).then(|| i / 2)))); }
         "vden" => { let a = pop!(st, V); let l1 = a.to_dense(); let l2 = a.into_vec(); if l1 != l2 { panic!("harness: to_dense != into_vec"); } st.push(IV::L(l1)); }
         "visz" => { let a = pop!(st, V); st.push(IV::B(a.is_zero())); }
-        "dadd" => { let b = pop!(st, D); let a = pop!(st, D); st.push(IV::D(a + b)); }
-        "dsub" => { let b = pop!(st, D); let a = pop!(st, D); st.push(IV::D(a - b)); }
+        "dadd" => { let b = pop!(st, D); let a = pop!(st, D); st.push(IV::D(forms6!(a, b, +, +=))); }
+        "dsub" => { let b = pop!(st, D); let a = pop!(st, D); st.push(IV::D(forms6!(a, b, -, -=))); }
         "dmul" => { let b = pop!(st, D); let a = pop!(st, D); st.push(IV::D(&a * &b)); }
         "dneg" => { let a = pop!(st, D); st.push(IV::D(-&a)); }
         "swr" => { let x = c.nats(2); let mut a = pop!(st, D); a.swap_rows(x[0], x[1]); st.push(IV::D(a)); }
